@@ -127,7 +127,7 @@ func (p *privateKeySigner) VerifyBid(bid *preconfpb.Bid) (*common.Address, error
 // VerifyPreConfirmation verifies the preconfirmation message, and returns the address of the provider
 // that signed the preconfirmation.
 func (p *privateKeySigner) VerifyPreConfirmation(c *preconfpb.PreConfirmation) (*common.Address, error) {
-	if c.Digest == nil || c.Signature == nil {
+	if c.Bid == nil || c.Digest == nil || c.Signature == nil {
 		return nil, ErrMissingHashSignature
 	}
 
